@@ -133,7 +133,7 @@ func (rc *wsRPCClient) handleReconnect(ctx context.Context, w wsclient.WSClient)
 		}
 		for _, s := range subs {
 			log.L(ctx).Infof("Resubscribing %s after WebSocket reconnect", s.localID)
-			_, rpcErr := s.sendSubscribe(ctx)
+			_, rpcErr := s.sendSubscribe(ctx, false)
 			if rpcErr != nil {
 				log.L(ctx).Errorf("Failed to send resubscribe: %s", rpcErr)
 				return rpcErr.Error()
@@ -158,14 +158,28 @@ func (rc *wsRPCClient) addInflightRequest(req *RPCRequest) (string, chan *RPCRes
 	return reqID, resChl
 }
 
-func (rc *wsRPCClient) addInflightSub(s *sub) string {
+// addInflightSub allocates the request id for an eth_subscribe. It returns false (nothing to send) for the initial
+// request of Subscribe() when a reconnect has already (re)issued the request for this subscription, and for a
+// subscription that has been unsubscribed in the meantime.
+func (rc *wsRPCClient) addInflightSub(s *sub, initial bool) (string, bool) {
 	rc.mux.Lock()
 	defer rc.mux.Unlock()
+	if initial && (s.pendingReqID != "" || s.currentSubID != "") {
+		return s.pendingReqID, false
+	}
+	if _, configured := rc.configuredSubs[*s.localID]; !configured {
+		// unsubscribed while a reconnect was about to resubscribe it
+		return "", false
+	}
+	if s.pendingReqID != "" {
+		// superseded by this request: only one request per subscription is ever awaited
+		delete(rc.pendingSubsByReqID, s.pendingReqID)
+	}
 	rc.requestCounter++
 	s.pendingReqID = fmt.Sprintf("%.9d", rc.requestCounter)
 	s.currentSubID = ""
 	rc.pendingSubsByReqID[s.pendingReqID] = s
-	return s.pendingReqID
+	return s.pendingReqID, true
 }
 
 func (rc *wsRPCClient) popInflight(rpcID string) (*sub, chan *RPCResponse) {
@@ -188,6 +202,10 @@ func (rc *wsRPCClient) popInflight(rpcID string) (*sub, chan *RPCResponse) {
 func (rc *wsRPCClient) addActiveSub(s *sub, subscriptionID string) {
 	rc.mux.Lock()
 	defer rc.mux.Unlock()
+	if _, configured := rc.configuredSubs[*s.localID]; !configured {
+		// unsubscribed between the arrival of this confirmation and now: it must not become active again
+		return
+	}
 	s.currentSubID = subscriptionID
 	rc.activeSubsBySubID[s.currentSubID] = s
 }
@@ -275,7 +293,7 @@ func (rc *wsRPCClient) Subscribe(ctx context.Context, params ...interface{}) (su
 
 	s, newSubResponse := rc.addConfiguredSub(ctx, params)
 
-	reqID, rpcErr := s.sendSubscribe(ctx)
+	reqID, rpcErr := s.sendSubscribe(ctx, true)
 	if rpcErr != nil {
 		rc.removeConfiguredSub(s.localID)
 		return nil, rpcErr
@@ -290,15 +308,18 @@ func (rc *wsRPCClient) Subscribe(ctx context.Context, params ...interface{}) (su
 	}
 }
 
-func (s *sub) sendSubscribe(ctx context.Context) (string, *RPCError) {
+func (s *sub) sendSubscribe(ctx context.Context, initial bool) (string, *RPCError) {
 	rpcReq, rpcErr := buildRequest(ctx, "eth_subscribe", s.params)
 	if rpcErr != nil {
 		return "", rpcErr
 	}
-	reqID := s.rc.addInflightSub(s)
+	reqID, send := s.rc.addInflightSub(s, initial)
+	if !send {
+		return reqID, nil
+	}
 	rpcReq.ID = fftypes.JSONAnyPtr(`"` + reqID + `"`)
 
-	return reqID, s.rc.sendRPC(ctx, s.pendingReqID, rpcReq)
+	return reqID, s.rc.sendRPC(ctx, reqID, rpcReq)
 }
 
 func (s *sub) LocalID() *fftypes.UUID {
